@@ -30,6 +30,7 @@ type Engine struct {
 	lemmas        []*Lemma
 	contractFiles []string
 	ifaceCts      map[string]*Contract
+	writers       []*WritersClause
 	externCts     map[string]*Contract
 
 	keyMu   sync.Mutex
@@ -466,6 +467,99 @@ func (c *fnCtx) applyIfaceContract(in ssa.Instruction, ct *Contract, cc *ssa.Cal
 	return r
 }
 
+// writersObligations: a field named in a writers clause is stored to (or has its address escape) only inside the
+// listed functions. Together with a two-state postcondition proved on each listed function this makes the
+// postcondition a history constraint of the field: it holds across any call, however dynamic.
+func (e *Engine) writersObligations(prop string) []*Obl {
+	var res []*Obl
+	for _, w := range e.writers {
+		has := false
+		for _, p := range w.Props {
+			if p == prop {
+				has = true
+			}
+		}
+		if !has {
+			continue
+		}
+		allowed := map[string]bool{}
+		for _, a := range w.Allowed {
+			allowed[a] = true
+		}
+		var bad []string
+		seenBad := map[string]bool{}
+		found := false
+		for _, f := range e.allFns {
+			if f.Blocks == nil {
+				continue
+			}
+			for _, b := range f.Blocks {
+				for _, in := range b.Instrs {
+					fa, ok := in.(*ssa.FieldAddr)
+					if !ok {
+						continue
+					}
+					pt, ok := fa.X.Type().Underlying().(*types.Pointer)
+					if !ok {
+						continue
+					}
+					nt, ok := pt.Elem().(*types.Named)
+					if !ok || nt.Obj().Pkg() != w.Pkg || nt.Obj().Name() != w.Type {
+						continue
+					}
+					st, ok := nt.Underlying().(*types.Struct)
+					if !ok || st.Field(fa.Field).Name() != w.Field {
+						continue
+					}
+					found = true
+					writes := false
+					for _, u := range *fa.Referrers() {
+						switch x := u.(type) {
+						case *ssa.UnOp:
+							// load
+						case *ssa.DebugRef:
+						case *ssa.Store:
+							if x.Addr == ssa.Value(fa) {
+								writes = true
+							} else {
+								writes = true // the address itself is stored somewhere
+							}
+						default:
+							writes = true // address escapes (call argument, field/index address, phi ...)
+						}
+					}
+					root := f
+					for root.Parent() != nil {
+						root = root.Parent()
+					}
+					if writes && !allowed[e.fnKey(root)] && !seenBad[e.fnKey(f)] {
+						seenBad[e.fnKey(f)] = true
+						bad = append(bad, e.fnKey(f))
+					}
+				}
+			}
+		}
+		sort.Strings(bad)
+		o := &Obl{Class: "writers", Fn: w.Pkg.Name() + "." + w.Type, Text: "only " + strings.Join(w.Allowed, ", ") + " store to " + w.Type + "." + w.Field, Guard: "true", Cond: "true"}
+		o.Pos.Filename = w.File
+		o.Name = w.Pkg.Name() + "." + w.Type + "." + w.Field + "#writers"
+		switch {
+		case !found:
+			o.Result = "refuted"
+			o.Raw = "no access to " + w.Type + "." + w.Field + " found (renamed field?)"
+			o.final = true
+		case len(bad) == 0:
+			o.Result, o.By = "proved", "frame-analysis"
+		default:
+			o.Result = "refuted"
+			o.Raw = "stored to outside the listed functions: " + strings.Join(bad, ", ")
+			o.final = true
+		}
+		res = append(res, o)
+	}
+	return res
+}
+
 // subtypeObligations: every in-module implementer of a contracted interface method stays inside the frame of
 // the interface contract (syntactic write-set inclusion). A method whose body only calls its own receiver
 // (a named func type) is represented by the functions converted to that type.
@@ -696,6 +790,13 @@ func (e *Engine) initOnlyNonNil(g *ssa.Global) bool {
 				case *ssa.Call:
 					if cal := v.Call.StaticCallee(); cal != nil && (cal.String() == "errors.New" || cal.String() == "fmt.Errorf") {
 						ok = true
+					} else if cal != nil && cal.Pkg != nil && cal.Pkg.Pkg.Path() == "flag" && cal.Signature.Recv() == nil && strings.HasPrefix(cal.String(), "flag.") {
+						// flag.Bool / Int / String / Duration ...: return a pointer to a freshly allocated value
+						if _, isPtr := v.Type().Underlying().(*types.Pointer); isPtr && !token.IsExported(g.Name()) {
+							ok = true
+						} else {
+							stores += 100
+						}
 					} else {
 						stores += 100
 					}
